@@ -356,6 +356,7 @@ class C04(Property):
         detail = "" if corr else f"model {drv['model']} vs implementation {obs}"
         # ---- spec on the implementation's output
         spec_ok = True
+        known_id: Optional[str] = None
         tags = [f, "in-scope" if scope else "out-of-scope"]
         nontrivial = False
         if scope and "err" not in obs:
@@ -395,6 +396,10 @@ class C04(Property):
                     tags.append("arc")
                 else:   # multi-exon input: outer ends only; introns are not filled (by design)
                     spec_ok = oi["covers_input"] and oi["within_expected"] and oi["inside"]
+                    if spec_ok and not oi["covers_expected"]:
+                        # recorded defect class: some bases within the distance of the outer ends stay uncovered
+                        spec_ok = False
+                        known_id = "KF-C04-extend-multi-exon-flanks" if case["circ"] else None
                 if all(p[2] == 1 for p in case["a"]["parts"]) and len(case["a"]["parts"]) <= 2:
                     tags.append("area")
                 nontrivial = case["d"] > 0
@@ -422,7 +427,8 @@ class C04(Property):
             tags.append("err:" + obs["err"])
         if any(x.get("c") for x in ([case.get("a"), case.get("b")] + case.get("ls", [])) if x):
             tags.append("compound-operand")
-        return Judgement(corr, spec_ok, in_scope=scope, nontrivial=nontrivial, tags=tuple(tags), detail=detail)
+        return Judgement(corr, spec_ok, in_scope=scope, known=known_id if not spec_ok else None, nontrivial=nontrivial,
+                         tags=tuple(tags), detail=detail)
 
     def shrink(self, case: Dict[str, Any]) -> Iterator[Dict[str, Any]]:
         if "ls" in case and len(case["ls"]) > 1:
